@@ -286,9 +286,12 @@ func (p *poller) modify(fd int, event Event) error {
 }
 
 func (p *poller) Del(slot *Slot) error {
+	// Always clear both directions: each DelX updates the slot's mask and the
+	// pending count even if epoll_ctl fails.
 	err := p.DelRead(slot)
+	errWrite := p.DelWrite(slot)
 	if err == nil {
-		return p.DelWrite(slot)
+		return errWrite
 	}
 	return nil
 }
